@@ -405,7 +405,23 @@ func (h *H) deliver(payload []*raw, what string) (added bool, callErr error, err
 		in[i] = &raw{RawChange: append([]byte(nil), r.RawChange...), Id: r.Id}
 	}
 	h.tree.Lock()
-	res, callErr := h.tree.AddRawChanges(ctx, objecttree.RawChangesPayload{NewHeads: newHeads, RawChanges: in})
+	res, callErr := func() (res objecttree.AddResult, err error) {
+		defer func() {
+			if r := recover(); r != nil {
+				h.tree.Unlock()
+				if debug {
+					fmt.Printf("PANIC in AddRawChanges(%s): %v\n--- tree before the call ---\n%s--- payload ---\n", what, r, pre.render())
+					for _, x := range payload {
+						if b, ok := h.pool[x.Id]; ok {
+							fmt.Printf("  %s parents=%v base=%s snap=%v\n", x.Id, b.parents, b.base, b.snap)
+						}
+					}
+				}
+				panic(r)
+			}
+		}()
+		return h.tree.AddRawChanges(ctx, objecttree.RawChangesPayload{NewHeads: newHeads, RawChanges: in})
+	}()
 	h.tree.Unlock()
 	h.nDeliveries++
 	post, err := h.observe()
@@ -1001,17 +1017,6 @@ func (h *H) describeAcl(sel int) string {
 
 // unexpectedReject: the converse direction (valid => accepted) is generator health, not C02.
 func (h *H) unexpectedReject(what string, callErr error, b *built) {
-	// known reason outside C02: a change whose parent lies below the in-memory root (the tree
-	// was reduced to a later snapshot) goes through the rebuild-from-storage path, whose
-	// common-snapshot search can start the rebuilt tree above that parent; the change is then
-	// silently left unattached (nil error)
-	for _, p := range b.parents {
-		if _, inMem := h.snap.mem[p]; !inMem && callErr == nil {
-			vstat.Count("valid_dropped_parent_below_inmemory_root", 1)
-			h.classes["valid-dropped-parent-below-root"] = true
-			return
-		}
-	}
 	vstat.Count("unexpected_reject", 1)
 	if debug || os.Getenv("C02_HEALTH") != "" {
 		cj, _ := json.Marshal(h.c)
